@@ -178,6 +178,12 @@ func (f *file) asyncReadNow(b []byte, readSoFar int, readAll bool, cb AsyncCallb
 		return
 	}
 
+	if err == nil {
+		// readAll == true and the buffer is not full yet: a short read is not a completion.
+		f.scheduleRead(readSoFar, cb)
+		return
+	}
+
 	// handles (readAll == false) and (readAll == true && readSoFar != len(b)).
 	if err == sonicerrors.ErrWouldBlock {
 		// If readAll == true then read some without errors.
@@ -234,6 +240,12 @@ func (f *file) asyncWriteNow(b []byte, wroteSoFar int, writeAll bool, cb AsyncCa
 		// If writeAll == true then we wrote fully without errors.
 		// If writeAll == false then we wrote some without errors.
 		cb(nil, wroteSoFar)
+		return
+	}
+
+	if err == nil {
+		// writeAll == true and the buffer is not fully written yet: a short write is not a completion.
+		f.scheduleWrite(wroteSoFar, cb)
 		return
 	}
 
